@@ -74,6 +74,14 @@ class _EnvBase:
         r = self.run(fn, *a, **k)
         return isinstance(r, Raised)
 
+    def call(self, fn, *a, **k):
+        """like run(), but the call goes through the engine's call dispatch, so installed summaries /
+        environment models apply to `fn` itself (a plain call from harness code bypasses them)"""
+        if self.symbolic:
+            from .instrument import __sx_call__
+            return self.run(__sx_call__, fn, *a, **k)
+        return self.run(fn, *a, **k)
+
 
 class SymEnv(_EnvBase):
     symbolic = True
